@@ -1290,3 +1290,59 @@ def r77(ctx: Ctx) -> RuleReport:
             else:
                 rep.ok(key, fi.loc(loop))
     return rep
+
+
+@rule('R78', 'a search for an unused name terminates: candidates come from a counter that is part of the name, or a repeated candidate is detected')
+def r78(ctx: Ctx) -> RuleReport:
+    from ..resolve import facts_ex
+    rep = RuleReport('R78', r78.title, floor=3)
+    for fi in ctx.repo.all_functions():
+        for loop in [n for n in walk_local(fi.node) if isinstance(n, (ast.While, ast.For))]:
+            # the loop searches while the candidate is taken:  while X in S   /   for ...: if X not in S: break
+            test_src = norm(loop.test) if isinstance(loop, ast.While) else ' '.join(norm(x.test) for x in ast.walk(loop) if isinstance(x, ast.If))
+            m = None
+            for x in (ast.walk(loop.test) if isinstance(loop, ast.While) else [y for i_ in ast.walk(loop) if isinstance(i_, ast.If) for y in ast.walk(i_.test)]):
+                if isinstance(x, ast.Compare) and len(x.ops) == 1 and isinstance(x.ops[0], (ast.In, ast.NotIn)) and isinstance(x.left, ast.Name) \
+                        and isinstance(x.comparators[0], ast.Name):
+                    m = (x.left.id, x.comparators[0].id)
+            if m is None:
+                continue
+            cand, taken = m
+            gens = [n for n in ast.walk(loop) if isinstance(n, ast.Assign) and isinstance(n.targets[0], ast.Name) and n.targets[0].id == cand]
+            if not gens:
+                continue
+            if isinstance(loop, ast.For) and not (isinstance(loop.iter, ast.Call) and norm(loop.iter.func) in ('count', 'itertools.count')):
+                continue
+            key = f'{fi.module.name}:{fi.qualname}: search for a {cand} not in {taken}'
+            counters = {n.target.id for n in ast.walk(loop) if isinstance(n, ast.AugAssign) and isinstance(n.target, ast.Name)}
+            if isinstance(loop, ast.For):
+                counters |= {x.id for x in ast.walk(loop.target) if isinstance(x, ast.Name)}
+            verdicts = []
+            for g in gens:
+                v = g.value
+                if isinstance(v, ast.JoinedStr) and any(isinstance(p, ast.FormattedValue) and isinstance(p.value, ast.Name) and p.value.id in counters
+                                                        and p.format_spec is None for p in v.values):
+                    verdicts.append('distinct')         # a literal template that spells out the counter
+                elif isinstance(v, ast.Call) and isinstance(v.func, ast.Attribute) and v.func.attr == 'format' and isinstance(v.func.value, ast.Name) \
+                        and v.func.value.id in fi.params:
+                    # the template is the caller's: nothing forces it to use the counter
+                    detected = False
+                    for r in [x for x in ast.walk(loop) if isinstance(x, ast.Raise)]:
+                        fx = facts_ex(ctx, fi, r)
+                        seen = [f.split(' in ', 1)[1] for f, pol in fx if pol and f.startswith(f'{cand} in ')]
+                        for sname in seen:
+                            if any(isinstance(a, ast.Call) and isinstance(a.func, ast.Attribute) and a.func.attr == 'add' and norm(a.func.value) == sname
+                                   and a.args and norm(a.args[0]) == cand for a in ast.walk(loop)):
+                                detected = True
+                    verdicts.append('detected' if detected else 'unbounded')
+                else:
+                    verdicts.append('unknown')
+            if 'unbounded' in verdicts:
+                rep.violation(key, fi.loc(loop), f'the candidates are produced by `{norm(gens[0].value)[:60]}` from a format string supplied by the caller: if it does not use '
+                              f'the counter (a constant such as "x", or "{{prefix}}" for two concepts with the same initial) every candidate is the same and the '
+                              f'loop never ends; nothing in the loop detects a repeated candidate')
+            elif 'unknown' in verdicts:
+                rep.undecided(key, fi.loc(loop), norm(gens[0].value)[:60])
+            else:
+                rep.ok(key, fi.loc(loop), ', '.join(sorted(set(verdicts))))
+    return rep
